@@ -506,6 +506,94 @@ pub fn run_twins(seed: u64, idx: u64) -> (RunOutput, Vec<(&'static str, &'static
     (out, v)
 }
 
+// ---------------------------------------------------------------------------
+// A run started and completed inside a step / hook of another run, on the same thread.
+
+/// World of the nested-run workload (nothing is recorded about it).
+#[derive(Debug)]
+pub struct NW;
+
+impl cucumber::World for NW {
+    type Error = std::convert::Infallible;
+    async fn new() -> Result<Self, Self::Error> {
+        Ok(NW)
+    }
+}
+
+fn nw_ok(_: &mut NW, _: cucumber::step::Context) -> futures::future::LocalBoxFuture<'_, ()> {
+    Box::pin(async {})
+}
+
+fn nw_boom(_: &mut NW, _: cucumber::step::Context) -> futures::future::LocalBoxFuture<'_, ()> {
+    Box::pin(async { panic::panic_any(String::from("planned nested boom")) })
+}
+
+fn nw_feature(name: &str, steps: &[&str]) -> gherkin::Feature {
+    let sc = spec::ScSpec {
+        uid: 0,
+        name: format!("sc s0 {name}"),
+        tags: Vec::new(),
+        steps: steps.iter().map(|t| spec::StepSpec { kw: 0, text: (*t).to_owned(), kind: spec::StepKind::Run, unit: String::new(), doc: None, table: None }).collect(),
+    };
+    spec::to_gherkin(&spec::FeatSpec { uid: 0, name: format!("feat f0 {name}"), tags: Vec::new(), bg: Vec::new(), scenarios: vec![sc], rules: Vec::new(), path: None })
+}
+
+async fn nw_inner_run() {
+    let inner = runner::Basic::<NW>::default()
+        .given(Regex::new("^inner ok$").unwrap(), nw_ok)
+        .given(Regex::new("^inner boom$").unwrap(), nw_boom);
+    let evs = inner.run(futures::stream::iter(vec![Ok(nw_feature("inner", &["inner ok", "inner boom"]))]), RunnerCli::default());
+    evs.for_each(|_| futures::future::ready(())).await;
+}
+
+fn nw_nested(_: &mut NW, _: cucumber::step::Context) -> futures::future::LocalBoxFuture<'_, ()> {
+    Box::pin(nw_inner_run())
+}
+
+/// An outer run one of whose steps (or whose after hook) drives a complete inner run; both have a
+/// panicking step. Returns what the panic-hook clauses of C10 have to say about the OUTER run.
+pub fn run_nested(idx: u64) -> Vec<(&'static str, &'static str, String)> {
+    install_sentinel_hook();
+    let hits0 = SENTINEL_HITS.load(Ordering::SeqCst);
+    let base = runner::Basic::<NW>::default()
+        .given(Regex::new("^outer ok$").unwrap(), nw_ok)
+        .given(Regex::new("^outer boom$").unwrap(), nw_boom)
+        .given(Regex::new("^nested run$").unwrap(), nw_nested);
+    let in_hook = idx % 2 == 1;
+    let feats = vec![Ok(nw_feature("outer", if in_hook { &["outer ok", "outer boom"][..] } else { &["outer ok", "nested run", "outer boom"][..] }))];
+    IN_RUN.store(true, Ordering::SeqCst);
+    let evs: Result<Vec<_>, _> = panic::catch_unwind(AssertUnwindSafe(|| {
+        if in_hook {
+            let r = base.after(|_, _, _, _, _| Box::pin(nw_inner_run()));
+            futures::executor::block_on(r.run(futures::stream::iter(feats), RunnerCli::default()).collect::<Vec<_>>())
+        } else {
+            futures::executor::block_on(base.run(futures::stream::iter(feats), RunnerCli::default()).collect::<Vec<_>>())
+        }
+    }));
+    IN_RUN.store(false, Ordering::SeqCst);
+    let during = SENTINEL_HITS.load(Ordering::SeqCst) - hits0;
+    let h1 = SENTINEL_HITS.load(Ordering::SeqCst);
+    let _ = panic::catch_unwind(|| panic::panic_any(Probe));
+    let restored = SENTINEL_HITS.load(Ordering::SeqCst) == h1 + 1;
+    let mut v = Vec::new();
+    let place = if in_hook { "after hook" } else { "step" };
+    match evs {
+        Err(_) => v.push(("C10", "panic:escaped", format!("a run nested in a {place} of another run: a panic escaped the outer run"))),
+        Ok(evs) => {
+            if !matches!(evs.last(), Some(Ok(e)) if matches!(e.value, cucumber::event::Cucumber::Finished)) {
+                v.push(("C10", "panic:no-run-finished", format!("a run nested in a {place} of another run: the outer stream did not end with run-Finished")));
+            }
+        }
+    }
+    if during != 0 {
+        v.push(("C10", "panic:hook-invoked-during-run", format!("a run nested in a {place} of another run: the process panic hook was invoked {during} time(s) during the outer run")));
+    }
+    if !restored {
+        v.push(("C10", "panic:hook-not-restored", format!("a run nested in a {place} of another run: after the outer run the hook installed before it is not in place")));
+    }
+    v
+}
+
 /// The lazy parser stream of a case (for callers that build their own pipeline).
 pub fn parser_for(case: &CaseSpec) -> (LazyParser, Rc<RefCell<ParserShared>>) {
     let shared = Rc::new(RefCell::new(ParserShared::default()));
@@ -640,9 +728,14 @@ pub fn drive(
                     qp.decision = format!("sleep:{ms}+");
                 }
                 // postponed in-span logs (a detached task logging in a step's span)
-                let n_deferred = with_rs(|rs| rs.deferred.len());
-                if n_deferred > 0 && ((blocked.is_empty() && !parser_waiting) || rng.chance(1, 3)) {
-                    let owner = world::fire_deferred();
+                let (n_deferred, n_logging) = with_rs(|rs| (rs.deferred.len(), rs.deferred.iter().filter(|d| d.n > 0).count()));
+                let idle = blocked.is_empty() && !parser_waiting;
+                if (n_deferred > 0 && idle) || (n_logging > 0 && rng.chance(1, 3)) {
+                    // the worker holding the span may take real time (comparable to the retry delays)
+                    if rng.chance(1, 2) {
+                        thread::sleep(Duration::from_millis(3));
+                    }
+                    let owner = world::fire_deferred(idle);
                     qp.decision.push_str(&format!("deferred:{owner:?}"));
                     out.sched_hash = mix(out.sched_hash, 0xDEF);
                     with_rs(|rs| rs.q += 1);
